@@ -237,7 +237,9 @@ func c18list(c *Ctx, p primInst, n int) {
 		c.Prove(fs, "faithful-count", And(cs...), func(val func(*Term) uint64) *Violation {
 			return &Violation{Detail: fmt.Sprintf("%s writes a count different from %d", p.Name, n), Replay: &ReplayReq{Steps: steps(val), Judge: Judge{Kind: "prefix_ne", Step: 1, ExpectHex: hexOf(evalTerms(cb, val))}}}
 		})
-		c.Witness(fs, "list at boundary", func(val func(*Term) uint64) any { return map[string]any{"fn": p.Name, "elements": n, "bytes": val(out.Len)} })
+		c.Witness(fs, "list at boundary", func(val func(*Term) uint64) any {
+			return map[string]any{"fn": p.Name, "elements": n, "bytes": val(out.Len)}
+		})
 	}
 }
 
